@@ -190,19 +190,16 @@ impl FromStr for Pinned {
 
         // Check for "registry+" at the start.
         let prefix_plus = format!("{}+", Self::PREFIX);
-        if s.find(&prefix_plus).is_some_and(|loc| loc != 0) {
+        if s.find(&prefix_plus) != Some(0) {
             return Err(PinnedParseError::Prefix);
         }
 
         let without_prefix = &s[prefix_plus.len()..];
 
-        // Parse the package name.
-        let pkg_name = without_prefix
-            .split('?')
-            .next()
-            .ok_or(PinnedParseError::PackageName)?;
-
-        let without_package_name = &without_prefix[pkg_name.len() + "?".len()..];
+        // Parse the package name, the version follows the first `?`.
+        let (pkg_name, without_package_name) = without_prefix
+            .split_once('?')
+            .ok_or(PinnedParseError::PackageVersion)?;
         let mut s_iter = without_package_name.split('#');
 
         // Parse the package version
